@@ -902,3 +902,7 @@ Proof.
   - apply cookie_decrypt_total. - apply nts_decode_total. - apply ntske_read_data_total.
   - apply timestamp_from_oob_total. - apply auth_opt_site_total.
 Qed.
+
+Lemma nts_client_request_ok_896 navail clen :
+  1 <= navail -> 0 <= clen <= 896 -> is_ok (nts_client_request navail clen).
+Proof. intros H1 H2. apply nts_client_request_ok; lia. Qed.
